@@ -290,7 +290,8 @@ def run(chk: common.Check):
         rule=("obligations = theorems of coq/props/C19.v (all widths, all paddings, all 8-bit strings). Correspondence cases: "
               "unit-test corpus, all 1-char and 6x256 2-char strings, random valid/near-valid/arbitrary strings; "
               "distinct = (string shape, outcome). Search: all strings over [0-9A-Za-z _+.-] up to width "
-              f"{maxw}, random width 4-7, round trip+monotonicity exhaustively for the listed widths, serial renumbering"),
+              f"{maxw}, random width 4-7, round trip+monotonicity exhaustively for the listed widths, serial renumbering"
+              " Added in round 5: five-character serials on the HETATM records of a titratable ligand."),
         assumptions=["the model is hand-written; it is tied to hybrid36.decode by the correspondence run of this check",
                      "strings are over code points 0..255 (a PDB file read as text); str.strip()/int() of CPython are modelled in lib/PyStr.v"],
         trusted=["tools/props/c19.py (harness), lib/PyStr.v model of str.strip / int()"])
